@@ -308,6 +308,7 @@ def validate_trace_segments(chk, module, cfg, tracefile, script_of_segment=None,
     accepted_segments = 0
     begin = 0            # index into starts
     rejections = 0
+    known = 0
     part = 0
     while begin < len(starts):
         lo = starts[begin]
@@ -335,13 +336,17 @@ def validate_trace_segments(chk, module, cfg, tracefile, script_of_segment=None,
         rec = {"kind": "trace-rejected", "module": module, "diag": res.diag, "event": ev, "previous_event": prev,
                "invariant": res.violated, "segment": json.loads(seg_lines[0]),
                "segment_trace": [json.loads(x) for x in seg_lines[:400]]}
+        if isinstance(ev, dict):
+            rec["event_kind"] = ev.get("e")
+            rec["event_fn"] = ev.get("fn")
         if script_of_segment:
             rec["script"] = script_of_segment(json.loads(seg_lines[0]))
         what = "%s refuses event %s %s" % (module, json.dumps(ev)[:300], " ".join(res.diag)[:400])
         if res.violated:
             what = "invariant %s violated after event %s" % (res.violated, json.dumps(prev)[:300])
-        chk.violation(rec, what)
-        rejections += 1
+        if chk.violation(rec, what):
+            rejections += 1            # occurrences of a listed known finding do not use up the budget
+        known += 0 if rejections else 0
         if rejections >= max_rejections:
             log("too many rejections, remaining executions not examined")
             break
